@@ -251,7 +251,9 @@ func pairOracle(cx *CheckCtx, runs []*CaseRun, prop, what string, same func(a, b
 func injectComments(c *Case, r *Rng, pct int) *Case {
 	g := &TreeGen{r: r}
 	multi := map[string]bool{"Block": true, "Defs": true, "Struct": true, "Interface": true}
-	rw := &rewriter{args: func(api string, args []Arg) []Arg {
+	// (not inside Dict pairs: a Dict sorts its pairs by the rendered key text, comments included,
+	// so a comment inside a key moves the pair — that is C16's ordering, not a leak of the comment)
+	rw := &rewriter{keepDicts: true, args: func(api string, args []Arg) []Arg {
 		if !multi[api] {
 			return args
 		}
@@ -395,7 +397,8 @@ func oracleC15(cx *CheckCtx, runs []*CaseRun) []Finding {
 				}
 				for _, t := range commentTexts(cr.Case) {
 					want := squash(t)
-					if want == "" {
+					if want == "" || listMarkerRe.MatchString(t) {
+						// (gofmt rewrites the bullet of an indented list item in a comment to "-")
 						continue
 					}
 					style := "//"
@@ -1073,6 +1076,8 @@ func d7Membership(cx *CheckCtx, runs []*CaseRun) []Finding {
 	return fs
 }
 
+var listMarkerRe = regexp.MustCompile(`(?m)^[ \t]+[*+•][ \t]`)
+
 var staleAnnotationRe = regexp.MustCompile(`(?m)^package [A-Za-z_0-9]+ // import "`)
 
 // fileLevelComments: placement of header comments, package comments and the canonical-path
@@ -1104,14 +1109,14 @@ func fileLevelComments(cx *CheckCtx, cr *CaseRun, ri int, out string, headers, p
 			if f.Doc != nil {
 				for _, cm := range f.Doc.List {
 					for _, l := range strings.Split(cm.Text, "\n") {
-						l = strings.TrimSpace(l)
-						if l == first || strings.TrimSpace(strings.TrimPrefix(l, "//")) == first || strings.TrimSpace(strings.TrimPrefix(l, "/*")) == first {
+						l = squashWS(l)
+						if q := squashWS(first); l == q || strings.TrimPrefix(l, "//") == q || strings.TrimPrefix(l, "/*") == q {
 							inDoc = true
 						}
 					}
 				}
 			}
-			if first != "" && inDoc && !containsAny(pkgc, first) {
+			if squashWS(first) != "" && inDoc && !containsAny(pkgc, first) {
 				shape := "header-in-package-doc"
 				if strings.Contains(h, "\f") {
 					// go/printer counts a form feed inside a comment as a line break when it tracks
@@ -1123,7 +1128,9 @@ func fileLevelComments(cx *CheckCtx, cr *CaseRun, ri int, out string, headers, p
 		}
 		for _, p := range pkgc {
 			first := strings.TrimSpace(strings.Split(strings.TrimSpace(p), "\n")[0])
-			if first != "" && !strings.Contains(rawDoc, first) {
+			// (compared without blanks and control characters: gofmt strips the common "blank"
+			// prefix of block-comment lines, and everything <= ' ' counts as blank there)
+			if squashWS(first) != "" && !strings.Contains(squashWS(rawDoc), squashWS(first)) {
 				fs = append(fs, Finding{Property: "C15", Shape: "package-comment-not-doc", What: fmt.Sprintf("package comment %q is not in the package doc (doc=%q)", first, doc), Case: cr.Case.Text(), Observed: trunc(out)})
 			}
 		}
@@ -1136,4 +1143,13 @@ func fileLevelComments(cx *CheckCtx, cr *CaseRun, ri int, out string, headers, p
 		}
 	}()
 	return fs
+}
+
+func squashWS(x string) string {
+	return strings.Map(func(r rune) rune {
+		if r <= ' ' || r == 0x7f || unicode.IsSpace(r) {
+			return -1
+		}
+		return r
+	}, x)
 }
